@@ -26,6 +26,9 @@ pub struct OpRecord {
     pub payload: Vec<u8>,
     /// was the reference session present when the op started
     pub ref_joined_before: bool,
+    /// H1 snapshots around the op
+    pub snap_before: Option<crate::snapshot::Snap>,
+    pub snap_after: Option<crate::snapshot::Snap>,
 }
 
 pub struct World {
@@ -62,6 +65,7 @@ impl World {
             (e.trace.len(), e.delivered.len(), e.refs.is_some())
         };
         let mut payload = Vec::new();
+        let snap_before = self.dut.snapshot();
         let result = match op {
             Op::Join(txn) => {
                 self.env.borrow_mut().begin_op(idx, Some(txn), None, "join(OTAA)".into());
@@ -77,7 +81,6 @@ impl World {
                 // mask leaves a channel (the application cannot be asked to select an unusable rate)
                 let region = self.env.borrow().cfg.region;
                 let mut usable = crate::refregion::uplink_drs(region).contains(dr);
-                #[cfg(feature = "hooks")]
                 if usable && region.is_fixed() {
                     if let (Some(s), Some(def)) = (self.dut.snapshot(), crate::refregion::dr_def(region, *dr)) {
                         let range = if def.bw == 500 { 64..72 } else { 0..64 };
@@ -119,6 +122,7 @@ impl World {
         let downlinks = if result.is_panic() { vec![] } else { self.dut.take_downlinks() };
         let (fcnt_up_after, fcnt_down_after, dr_after, adr_after) =
             if result.is_panic() { (None, None, 0, false) } else { (self.dut.fcnt_up(), self.dut.fcnt_down(), self.dut.get_dr(), self.dut.get_adr()) };
+        let snap_after = if result.is_panic() { None } else { self.dut.snapshot() };
         let mut e = self.env.borrow_mut();
         for (p, d) in &downlinks {
             e.push(Ev::Downlink { port: *p, data: d.clone() });
@@ -139,6 +143,8 @@ impl World {
             adr_after,
             payload,
             ref_joined_before,
+            snap_before,
+            snap_after,
         };
         drop(e);
         self.records.push(rec.clone());
